@@ -387,9 +387,19 @@ class Extractor:
                 return SV(-v.e, v.labels, v.ar)
             if isinstance(e.op, ast.UAdd):
                 return v
+            if isinstance(e.op, ast.Not) and isinstance(v, SV) and not v.labels:
+                return SV(sp.Function("Indicator")(sp.Symbol("Not"), v.e, sp.Integer(0)), [])
+            if isinstance(e.op, ast.Not) and isinstance(v, bool):
+                return not v
             self.err("unary operator", e)
         if isinstance(e, ast.BinOp):
             return self.binop(e.op, self.expr(e.left), self.expr(e.right), e)
+        if isinstance(e, ast.BoolOp):
+            vals = [self.expr(v) for v in e.values]
+            if all(isinstance(v, SV) and not v.labels for v in vals):
+                return SV(sp.Function("Indicator")(sp.Symbol(type(e.op).__name__), sp.Function("Tup")(*[v.e for v in vals]), sp.Integer(0)), [])
+            if all(isinstance(v, bool) for v in vals):
+                return all(vals) if isinstance(e.op, ast.And) else any(vals)
         if isinstance(e, ast.Tuple):
             return tuple(self.expr(x) for x in e.elts)
         if isinstance(e, ast.List):
@@ -417,11 +427,11 @@ class Extractor:
                 out.append(self.expr(e.elt))
             self.env = saved
             return out
-        if isinstance(e, ast.Compare) and len(e.ops) == 1 and isinstance(e.ops[0], (ast.Lt, ast.LtE, ast.Gt, ast.GtE)):
+        if isinstance(e, ast.Compare) and len(e.ops) == 1 and isinstance(e.ops[0], (ast.Lt, ast.LtE, ast.Gt, ast.GtE, ast.Eq, ast.NotEq)):
             # elementwise comparison of arrays: a 0/1 indicator (it takes part in arithmetic as such)
             l, r = self.expr(e.left), self.expr(e.comparators[0])
             if isinstance(l, SV) and isinstance(r, SV):
-                rel = {ast.Lt: sp.Lt, ast.LtE: sp.Le, ast.Gt: sp.Gt, ast.GtE: sp.Ge}[type(e.ops[0])]
+                rel = {ast.Lt: sp.Lt, ast.LtE: sp.Le, ast.Gt: sp.Gt, ast.GtE: sp.Ge, ast.Eq: sp.Eq, ast.NotEq: sp.Ne}[type(e.ops[0])]
                 labels = self.broadcast(l, r, e)
                 a, b = sp.Symbol("cmp_l", real=True), sp.Symbol("cmp_r", real=True)
                 ind = sp.Function("Indicator")(sp.Symbol(type(e.ops[0]).__name__), l.e, r.e)
@@ -575,6 +585,25 @@ class Extractor:
             idx_vals.append(v)
             if isinstance(v, SV) and v.labels:
                 has_array = True
+        masks = [v for v in idx_vals if isinstance(v, SV) and v.labels and len(v.labels) == 1 and v.e.has(sp.Function("MaskOver"))]
+        if masks and base.labels is not None:
+            # boolean selection along one axis: x[mask] / x[:, mask]; every other index must be a full slice
+            pos = 0
+            for x, v in zip(elts0, idx_vals):
+                if (isinstance(x, ast.Constant) and x.value is None) or (isinstance(x, ast.Attribute) and x.attr == "newaxis"):
+                    continue
+                lab = base.labels[pos] if pos < len(base.labels) else None
+                pos += 1
+                if v is None:
+                    if not (isinstance(x, ast.Slice) and x.lower is None and x.upper is None and x.step is None):
+                        self.err("partial slice next to a boolean mask", e)
+                    continue
+                if v not in masks or lab is None or v.labels[0].base != lab.base:
+                    raise LabelMismatch(f"`{ast.unparse(e)[:70]}`: the boolean mask counts {v.labels if isinstance(v, SV) else v} but indexes axis {lab}", e)
+                kinds = {str(m.args[0]) for m in v.e.atoms(sp.Function("MaskOver"))}
+                shell = lab.base[2] if isinstance(lab.base, tuple) and lab.base[:2] == ("dim", "K") else "?"
+                self.shared.setdefault("events", []).append(("K-filter:" + ",".join(sorted(kinds)), self.func, e, shell))
+            return base  # the selected part has the same generic element and the same axis provenance
         if has_array:
             return self.gather(base, elts0, idx_vals, e)
         # table load?
@@ -631,6 +660,13 @@ class Extractor:
                     out.append(Lab(lab.base, lab.lo + ix.lo, ("upto", ix.value)))
                 continue
             iv = self.expr(x)
+            if isinstance(iv, SV) and iv.labels and len(iv.labels) == 1 and iv.e.has(sp.Function("MaskOver")) \
+                    and isinstance(lab.base, tuple) and lab.base[:2] == ("dim", "K") and iv.labels[0].base == lab.base:
+                # boolean selection of primitives: harmless only when it drops primitives whose coefficients are all zero
+                kinds = {str(m.args[0]) for m in iv.e.atoms(sp.Function("MaskOver"))}
+                self.shared.setdefault("events", []).append(("K-filter:" + ",".join(sorted(kinds)), self.func, e, lab.base[2]))
+                out.append(lab)
+                continue
             if isinstance(iv, SV) and not iv.labels:
                 k = iv.e
                 if lab.is_one():
@@ -967,6 +1003,8 @@ class Extractor:
             return self.reshape(recv, args, e)
         if attr in ("copy", "astype"):
             return recv
+        if attr in ("any", "all") and not e.args and not e.keywords:
+            return SV(sp.Function("Indicator")(sp.Symbol(attr), recv.e, sp.Integer(0)), [])
         if attr in ("transpose", "swapaxes", "prod", "max", "min"):
             # x.m(args) == np.m(x, args): re-dispatch through the function form
             if attr == "transpose":
@@ -1018,6 +1056,22 @@ class Extractor:
                 if fl is not None:
                     self.aranges[aid]["iota_of"] = fl  # np.arange(x.shape[k]): the identity index of that axis
             return SV(ARange(sp.Integer(aid)), [Lab(("ar", aid))])
+        if short in ("any", "all") and e.args:
+            v = self.expr(e.args[0])
+            ax = self.axis_arg(e)
+            if isinstance(v, SV) and v.labels is not None and v.e.has(sp.Function("Indicator")):
+                if ax is None:
+                    return SV(sp.Function("Indicator")(sp.Symbol(short), v.e, sp.Integer(0)), [])
+                ax = ax if isinstance(ax, int) else ax[0]
+                ax = ax % len(v.labels)
+                red = v.labels[ax]
+                inds = list(v.e.atoms(sp.Function("Indicator")))
+                # which test is reduced: `coeffs != 0` over the segment axis of the same shell is the "some coefficient is non-zero" mask
+                kind = short
+                if len(inds) == 1 and str(inds[0].args[0]) == "NotEq" and inds[0].args[2] == 0 and isinstance(red.base, tuple) and red.base[:2] == ("dim", "M") \
+                        and str(inds[0].args[1]).startswith("coef"):
+                    kind = ("some-coefficient-nonzero" if short == "any" else "every-coefficient-nonzero")
+                return SV(sp.Function("MaskOver")(sp.Symbol(kind), v.e), [l for k2, l in enumerate(v.labels) if k2 != ax])
         if short in ("exp", "sqrt"):
             v = self.expr(e.args[0])
             return SV(sp.exp(v.e) if short == "exp" else sp.sqrt(v.e), v.labels)
